@@ -406,6 +406,41 @@ bool is_unquoted_safe(jsoncons::string_view str, char delimiter = ',')
     return true;
 }
 
+// TOON has five escapes: \\, \", \n, \r and \t; every other character is written as it is
+template <typename Sink>
+void escape_toon_string(jsoncons::string_view str, Sink& sink)
+{
+    for (char c : str)
+    {
+        switch (c)
+        {
+            case '\\':
+                sink.push_back('\\');
+                sink.push_back('\\');
+                break;
+            case '\"':
+                sink.push_back('\\');
+                sink.push_back('\"');
+                break;
+            case '\n':
+                sink.push_back('\\');
+                sink.push_back('n');
+                break;
+            case '\r':
+                sink.push_back('\\');
+                sink.push_back('r');
+                break;
+            case '\t':
+                sink.push_back('\\');
+                sink.push_back('t');
+                break;
+            default:
+                sink.push_back(c);
+                break;
+        }
+    }
+}
+
 template <typename Sink>
 void encode_string(jsoncons::string_view str, char delimiter, Sink& sink)
 {
@@ -416,7 +451,7 @@ void encode_string(jsoncons::string_view str, char delimiter, Sink& sink)
     else
     {
         sink.push_back('\"');
-        jsoncons::detail::escape_string(str.data(), str.size(), false, false, sink);
+        escape_toon_string(str, sink);
         sink.push_back('\"');
     }
 }
@@ -431,7 +466,7 @@ void encode_key(jsoncons::string_view key, Sink& sink)
     else
     {
         sink.push_back('\"');
-        jsoncons::detail::escape_string(key.data(), key.size(), false, false, sink);
+        escape_toon_string(key, sink);
         sink.push_back('\"');
     }
 }
